@@ -48,3 +48,13 @@ claim("C07", "statesim", SIM + "invariant oracle after every step: code entry ex
       "Code-heavy histories (deploy shared, change, clear, remove, revert, commit, restart); the entry under every code hash is read from the current main trie after each step. Sampling, not proof.", STATE_NOTE)
 claim("C08", "statesim", SIM + "read-back oracle at four points (before save, after save, after commit, after restart) with caller buffer-sharing patterns in the plan",
       "Storage-heavy histories where the driver passes sub-slices of a reused arena (spare capacity, key and value adjacent) and scribbles over it after the call; every value must read back byte-for-byte, deleted keys read empty. Sampling, not proof.", STATE_NOTE)
+
+claim("C46", "historysim", SIM + "history oracle over record/notify/restart sequences with competing blocks",
+      "Seeded sequences of RecordBlock (same miniblock in competing blocks of one epoch and across epochs), OnNotarizedBlocks in any order, unrelated notifications, restarts and storer put errors on the real historyRepository over SimDisk storers; each lookup must name the most recently recorded block and carry notarization data once record and notification were both seen (bounded-progress reading). Sampling, not proof.",
+      "Trusts the harness model of 'most recently recorded block'; notarization asserted only after one further notification call and with no restart while the notification was pending; a failed record may be missing, never wrong.")
+claim("C42", "floodsim", SIM + "per-peer accounting oracle between resets over all accepted constructor arguments",
+      "Seeded IncreaseLoad/Reset/ApplyConsensusSize sequences from several peers on the real quotaFloodPreventer + LRU cacher; accepted messages <= max(1, message quota) and accepted bytes <= byte quota + first message. Sampling, not proof.",
+      "Cacher is large enough for the peers of a run; message sizes capped at 2^40; the quota in force after ApplyConsensusSize is bounded from above with exact integer arithmetic where possible.")
+claim("C43", "floodsim", SIM + "seeded interleavings of real goroutines parked at throttler/processor seams inside a synctest bubble",
+      "2-6 tasks deliver messages to the real SingleDataInterceptor / MultiDataInterceptor / TrieNodeResolver whose throttler is the real NumGoRoutinesThrottler behind a parking wrapper; the plan releases one seam call at a time; running admitted tasks must never exceed the maximum. The check-then-act window is a recorded known finding; every other kind still fails the check. Sampling, not proof.",
+      "Interleavings are decided at seam-call granularity (CanProcess, StartProcessing, EndProcessing, processor work); goroutine identity via runtime.Stack.")
